@@ -1,6 +1,7 @@
-import Ark.Generated.Logic
+import Ark.Generated.ToTypes
 import Ark.Proofs.MaskLemmas
 import Ark.Proofs.Rejects
+import Ark.Props.C20Words
 
 namespace Ark.Props.C18
 open Ark
@@ -53,5 +54,19 @@ theorem resources_map (m : AL Val) (r r2 : Nat) (v : Val) :
     (r2 ≠ r → AL.find? (AL.insert m r v) r2 = AL.find? m r2 ∧ AL.find? (AL.erase m r) r2 = AL.find? m r2) :=
   ⟨AL.find?_insert_self m r v, AL.find?_erase_self m r,
    fun h => ⟨AL.find?_insert_ne m r r2 v h, AL.find?_erase_ne m r r2 h⟩⟩
+
+
+/-! ## `toTypes` reads the mask through `Get`/`TotalBitsSet`: as the word-level Go code computes them -/
+
+theorem words_mask256_get : type_of% @Ark.Props.C20Words.mask256_get := @Ark.Props.C20Words.mask256_get
+
+theorem words_mask256_get_inRange : type_of% @Ark.Props.C20Words.mask256_get_inRange := @Ark.Props.C20Words.mask256_get_inRange
+
+theorem words_mask256_totalBitsSet : type_of% @Ark.Props.C20Words.mask256_totalBitsSet := @Ark.Props.C20Words.mask256_totalBitsSet
+
+theorem words_mask64_get : type_of% @Ark.Props.C20Words.mask64_get := @Ark.Props.C20Words.mask64_get
+
+theorem words_mask64_totalBitsSet : type_of% @Ark.Props.C20Words.mask64_totalBitsSet := @Ark.Props.C20Words.mask64_totalBitsSet
+
 
 end Ark.Props.C18
